@@ -86,6 +86,23 @@ def _chunk(seed, lo, hi, extra):
                 st.failures.append({"sig": "C18/fewer-entries-than-actions", "entries": n, **desc})
         except Exception as e:  # noqa
             st.failures.append({"sig": f"C18/raises/{real.exc_sig(e)}", **desc})
+        if c["idx"] % 40 == 0:
+            # one formatter object for several documents: the same path string, its prefix bound to another URI each time
+            r = core.rng_for(seed, "U11reuse", c["idx"])
+            pre = r.choice(["p", "q", "nsx"])
+            shared = formatting.XmlDiffFormatter()
+            for uri in r.sample(["urn:verif:one", "urn:verif:two", "urn:verif:three"], 3) + ["urn:verif:one"]:
+                lt = '<r xmlns:%s="%s"><%s:b k="1"><i/></%s:b><%s:c/></r>' % (pre, uri, pre, pre, pre)
+                rt = '<r xmlns:%s="%s"><%s:b j="1"><i/><n/></%s:b><m/><%s:c/></r>' % (pre, uri, pre, pre, pre)
+                d2 = {"history_prefix": pre, "uri": uri, "left": lt, "right": rt}
+                try:
+                    plain = main.diff_texts(lt, rt)
+                    got = main.diff_texts(lt, rt, formatter=shared)
+                    n2 = sum(1 for line in got.split("\n") if line.startswith("["))
+                    if n2 < len(plain):
+                        st.failures.append({"sig": "C18/fewer-entries-than-actions/reused-formatter", "entries": n2, **d2})
+                except Exception as e:  # noqa
+                    st.failures.append({"sig": f"C18/raises/reused-formatter/{real.exc_sig(e)}", **d2})
         if any(type(a).__name__ == "MoveNode" or (type(a).__name__ == "InsertNode" and a.position > 0) for a in script):
             st.nontriv((desc["left"], desc["right"], desc["options"]))
             st.sample({"left": desc["left"], "right": desc["right"], "options": desc["options"]}, 2)
